@@ -393,15 +393,29 @@ def arr_binop(eng, st, op, a, b, node):
                 eng.oblige(st, "noexc:shape-mismatch%d@L%d" % (n, node.lineno), 'noexc', p == q, node)
             st.assume(p == q)
     i, j = z3.Int(fresh_name('i')), z3.Int(fresh_name('j'))
-
-    def at(v):
+    vars_ = [i] if nd == 1 else [i, j]
+    # named array: op applied pointwise; equal operands give the same term (congruence instead of extensionality)
+    operands, tags = [], []
+    for v in (a, b):
         if isinstance(v.k, tuple):
-            d = eng.arr_data(st, v)
-            e = z3.Select(d, i) if nd == 1 else z3.Select(d, i, j)
-            return num_term(Val(v.k[2], e), ek)
-        return num_term(v, ek)
-    body = scalar_op(op, at(a), at(b), ek)
-    content = lam([i], body) if nd == 1 else lam([i, j], body)
+            operands.append(eng.arr_data(st, v))
+            tags.append('a' + elem_tag(v.k[2]))
+        else:
+            operands.append(num_term(v, ek))
+            tags.append('s')
+
+    def body(*vs):
+        xs = []
+        for v, o in zip((a, b), operands):
+            if isinstance(v.k, tuple):
+                e = z3.Select(o, *vs)
+                xs.append(num_term(Val(v.k[2], e), ek))
+            else:
+                xs.append(o)
+        return scalar_op(op, xs[0], xs[1], ek)
+    _CUR[0] = st
+    name = 'ew_%s_%s_%dd_%s' % (type(op).__name__, '_'.join(tags), nd, ek)
+    content = named_array(eng, name, operands, vars_, body)
     return eng.mk_arr(st, nd, ek, sh, content)
 
 
@@ -464,7 +478,9 @@ def arr_index_int(eng, st, v, i):
         return Val(v.k[2], z3.Select(d, i))
     sh = eng.arr_shape(st, v)
     c = z3.Int(fresh_name('c'))
-    return eng.mk_arr(st, 1, v.k[2], [sh[1]], lam([c], z3.Select(d, i, c)))
+    _CUR[0] = st
+    return eng.mk_arr(st, 1, v.k[2], [sh[1]],
+                      named_array(eng, 'row_of_' + elem_tag(v.k[2]), [d, i], [c], lambda cc: z3.Select(d, i, cc)))
 
 
 def slice_bounds(eng, st, sl, n):
@@ -567,6 +583,8 @@ def arr_load(eng, st, base, sl, node):
                     raise Unsupported("row gather with partial column slice")
                 return gather_rows(eng, st, base, av, node)
             i = eng.norm_index(st, to_int(av), sh[0], node)
+            if is_full_slice(b):
+                return arr_index_int(eng, st, base, i)
             lo, hi, ln = slice_bounds(eng, st, b, sh[1])
             c = z3.Int(fresh_name('c'))
             return eng.mk_arr(st, 1, ek, [ln], lam([c], z3.Select(d, i, c + lo)))
@@ -1021,10 +1039,8 @@ def np_argmin(eng, st, args, kw, node):
     r = z3.Int(fresh_name('argmin'))
     j = z3.Int(fresh_name('j'))
     st.assume(z3.And(0 <= r, r < n))
-    st.assume(z3.ForAll([j], z3.Implies(z3.And(0 <= j, j < n), z3.Select(d, r) <= z3.Select(d, j)),
-                        patterns=[z3.Select(d, j)]))
-    st.assume(z3.ForAll([j], z3.Implies(z3.And(0 <= j, j < r), z3.Select(d, r) < z3.Select(d, j)),
-                        patterns=[z3.Select(d, j)]))
+    st.assume(forall_p([j], z3.Implies(z3.And(0 <= j, j < n), z3.Select(d, r) <= z3.Select(d, j)), [z3.Select(d, j)]))
+    st.assume(forall_p([j], z3.Implies(z3.And(0 <= j, j < r), z3.Select(d, r) < z3.Select(d, j)), [z3.Select(d, j)]))
     return vint(r)
 
 
